@@ -222,10 +222,12 @@ def forwardFrame (channel data : Bytes) : Bytes :=
 /-- Velocity: respond = one plugin message on that player's backend connection; Forward = ONE plugin message
     to the backend server through a connected player's connection; connect = a connection request for that
     player; kick = disconnect that player; messages = chat to the addressed player(s). -/
-def specAdapt (online : List Player) (pick : List Player → Option Player) : Effect → List Write
+def specAdapt (online : List Player) (listed : Bytes → List Player)
+    (pick : List Player → Option Player) : Effect → List Write
   | .respond c data => [.backendPlugin c.owner (jChannel c.protocol) data]
   | .broadcast srv data =>
-    match pick (onServer online srv) with
+    -- sendPluginMessage: the first player IN THE SERVER'S LIST whose connected server IS this server
+    match pick ((listed srv).filter fun p => match p.conn with | some c => c.server == srv | none => false) with
     | some p => [.backendPlugin p.name cLegacy data]
     | none => []
   | .connect p s =>
